@@ -76,6 +76,7 @@ type BlockPipeline struct {
 
 	// State
 	sequenceCounter atomic.Uint64
+	inFlight        atomic.Int64 // blocks accepted by Submit that have not left the apply stage yet
 	ctx             context.Context
 	cancel          context.CancelFunc
 	started         atomic.Bool
@@ -188,6 +189,7 @@ func (p *BlockPipeline) Start(ctx context.Context) error {
 		bufSize, // Deprecated: pendingQueueSize is no longer used (kept for API compatibility)
 	)
 	p.applyRunner.SetMetrics(p.metrics)
+	p.applyRunner.SetOnItemDone(func() { p.inFlight.Add(-1) })
 
 	// Start all stages
 	// Note: p.ctx is derived from the passed ctx via context.WithCancel above
@@ -245,6 +247,9 @@ func (p *BlockPipeline) Submit(ctx context.Context, blockType uint, rawCbor []by
 
 	item := NewBlockItem(blockType, rawCbor, tip, p.sequenceCounter.Load())
 
+	// Count the item as in flight before it becomes visible to the workers,
+	// so that PendingCount never misses a block that a worker is holding
+	p.inFlight.Add(1)
 	select {
 	case p.submitChan <- item:
 		p.sequenceCounter.Add(1)
@@ -252,8 +257,10 @@ func (p *BlockPipeline) Submit(ctx context.Context, blockType uint, rawCbor []by
 		return nil
 	case <-ctx.Done():
 		// Context cancelled while waiting: the sequence number was not consumed
+		p.inFlight.Add(-1)
 		return ctx.Err()
 	case <-p.ctx.Done():
+		p.inFlight.Add(-1)
 		return ErrPipelineStopped
 	}
 }
@@ -320,6 +327,9 @@ func (p *BlockPipeline) Stop() error {
 	// Wait for metrics collector
 	p.wg.Wait()
 
+	// Whatever was still in flight has been dropped
+	p.inFlight.Store(0)
+
 	return nil
 }
 
@@ -339,6 +349,11 @@ func (p *BlockPipeline) PendingCount() int {
 	applyPending := 0
 	if p.applyStage != nil {
 		applyPending = p.applyStage.PendingCount()
+	}
+	// Blocks that a decode/validate worker or the apply runner is holding are
+	// in none of the channels; the in-flight counter covers them
+	if inFlight := int(p.inFlight.Load()); inFlight > channelDepth+applyPending {
+		return inFlight
 	}
 	return channelDepth + applyPending
 }
